@@ -1,4 +1,45 @@
-// engine K harnesses for module hook 'batcher' (included under cfg(kani) by /repo)
+// engine K — protocol/context/batcher.rs: PROBE ONLY (property C16 is not_applicable): documents that the synchronous
+// core of `Batcher` cannot be compiled by kani-compiler. Not registered as a unit.
+use super::*;
+
+#[kani::proof]
+#[kani::unwind(5)]
+fn zz_probe_batcher_get_batch() {
+    let mut b = Batcher::<usize>::new(2, TotalRecords::Indeterminate, Box::new(|i| i));
+    let Ok(g) = b.get_mut() else { return };
+    let s = g.get_batch(RecordId::from(3u32));
+    assert!(s.batch == 1);
+}
+
+fn stub_current() -> tracing::level_filters::LevelFilter {
+    tracing::level_filters::LevelFilter::OFF
+}
+fn stub_interest(_c: &tracing::callsite::DefaultCallsite) -> tracing::subscriber::Interest {
+    tracing::subscriber::Interest::never()
+}
+fn stub_enabled(_m: &'static tracing::Metadata<'static>, _i: tracing::subscriber::Interest) -> bool {
+    false
+}
+fn stub_dispatch<'a>(_m: &'static tracing::Metadata<'static>, _f: &'a tracing::field::ValueSet<'_>)
+where
+    'a: 'a,
+{
+}
+
+#[kani::proof]
+#[kani::unwind(5)]
+#[kani::stub(tracing::level_filters::LevelFilter::current, stub_current)]
+#[kani::stub(tracing::callsite::DefaultCallsite::interest, stub_interest)]
+#[kani::stub(tracing::__macro_support::__is_enabled, stub_enabled)]
+#[kani::stub(tracing::Event::dispatch, stub_dispatch)]
+fn zz_probe_batcher_ready() {
+    let Some(n) = std::num::NonZeroUsize::new(4) else { return };
+    let mut b = Batcher::<usize>::new(2, TotalRecords::Specified(n), Box::new(|i| i));
+    let Ok(g) = b.get_mut() else { return };
+    let r = g.is_ready_for_validation(RecordId::from(2u32));
+    assert!(matches!(r, Ok(Ready::No(_))));
+    assert!(g.first_batch == 0 && g.batches.len() == 2);
+}
 
 #[cfg(test)]
 include!(concat!(env!("IPA_VERIF_DIR"), "/.build/playback/batcher.rs"));
